@@ -22,9 +22,15 @@ P = {
             'For every text inside the bound, every entry point (parse*, lex*, Parse::* for Mod/Suite/Stmt/Expr/Identifier/Constant and all 55 generated node types, deprecated helpers) in three modes at offsets {0,1,7,400,2^31,2^32-2-len} must equal the shifted / projected offset-0 result.',
             'reference = parse(text, mode) at offset 0 (self-relation, no external oracle)', '7/C09'),
     'C10': (False, '', '', '', '7/C10'),
-    'C11': (False, '', '', '', '7/C11'),
-    'C12': (False, '', '', '', '7/C12'),
-    'C13': (False, '', '', '', '7/C13'),
+    'C11': (True, 'deviation-bounded exhaustive enumeration of expression derivations (G_ref expression grammar d<=2/3, operator-and-parenthesis sub-grammar d<=3/4) plus a constant/f-string alphabet, each through parse -> unparse -> parse -> unparse',
+            'Every expression tree the parser produces inside the bound is rendered, re-parsed, compared up to ranges/ctx and rendered again; the operator sub-grammar at one more deviation contains every (parent, child, side) triple of the precedence levels with and without parentheses.',
+            'self-relation on the real parser and unparser', '7/C11'),
+    'C12': (True, 'exhaustive enumeration of G_ref derivations (d<=2/3); every tree folded (identity, tagging) and visited (counting Visitor) with an independent node/range census taken from the Debug rendering; optimiser vs a reference transformation',
+            'Every tree inside the bound, in the default and all-nodes-with-ranges builds: no child dropped/duplicated/moved by Fold, every statement/expression/pattern/handler visited exactly once, optimiser equal to the reference and idempotent.',
+            'derive(Debug) as census; reference optimiser in the harness', '7/C12'),
+    'C13': (True, 'explicit-state search of the LinearLocator cursor machine (states read through hook H4, BFS with de-duplication, histories replayed) for all texts <=6/8 over {a, é, LF, CR, BOM}; plus exhaustive enumeration of G_ref trees x 7 layouts x 2 builds through both locators against a reference counter',
+            'All reachable cursor states x all locate/locate_only events are checked against a reference line/character counter, with the state-is-a-function-of-the-cursor abstraction asserted; every corpus tree is folded by both locators and compared with the reference rendering.',
+            'reference counter in the harness; hook H4 (LinearLocator::verif_state)', '7/C13'),
     'C14': (True, 'bounded-exhaustive enumeration of the complete product of signature shapes (counts per parameter kind x default assignments x annotations x def/lambda) through the real parser and conversion functions against an in-harness reference',
             'Every signature shape up to the bound is parsed and converted both ways by the real code; the index arithmetic of the conversions depends only on the list lengths, all combinations of which are covered.',
             'reference = the generator\'s own description of each signature; default feature configuration', '7/C14'),
